@@ -33,7 +33,7 @@ PROPS = {
     },
     "C18": {
         "rule": "10^k (k=0..5000) through the real ten_to_the_uint (hook) and digits() of 10^k, 10^k+1, -(10^k-1); all unscaled values with <= 5 digits x scales -6..6 "
-                "(accessor round trip through every constructor/view, normalized) - complete in thorough, 1/23 slice in quick; the real count_decimal_digits_uint and "
+                "(accessor round trip through every constructor/view, the derived reference views abs / neg / neg.abs / abs.neg observed directly: sign, scale, digit count, is_zero, owned copy, equality both ways; normalized) - complete in thorough, 1/23 slice in quick; the real count_decimal_digits_uint and "
                 "get_rounding_term (hooks) on 2^(b-1) and 2^b-1 for every bit length b <= 40000 (quick) / 400000 (thorough) plus random b up to 2*10^6 / 2*10^7 - the extreme "
                 "inputs for the f64 digit estimate, judged by 10^(d-1) <= n < 10^d; re-scaling through the owned value (with_scale) and the reference view (to_owned_with_scale) by every gap -45..45 and the gaps around 256/512/590 (extension exact, reduction truncates); random decimals up to 5000 digits with up to 5000 trailing zeros, exact scale / precision "
                 "extensions by 0..5000. Non-trivial = multi-digit / has trailing zero / actually extends.",
@@ -76,7 +76,7 @@ PROPS = {
         "rule": "pairs (a,b) through ==, !=, <, <=, >, >=, cmp, partial_cmp, max, min on values and ==/cmp on references: for every k<20, 1..4 limbs and every limb position the "
                 "32-bit limbs floor(2^64/10^k)-1,+0,+1 and 2^32-1 (value-equal partner x*10^k at scale+k, and a one-ulp neighbour); value-equal pairs with scale gaps 1..19 and "
                 "20..3000 (19/20/21, 589..608 switches); ULP neighbours; sign flips; zeros with any scale; operands straddling 2^64 and 2^128; one differing far digit; scale "
-                "differences above 2^63; sort() of 2..10 decimals with value-equal twins. Observable: all twelve answers exactly. Non-trivial = both operands non-zero.",
+                "differences above 2^63; sort() of 2..10 decimals with value-equal twins; negated and abs reference views compared with the owned results. Observable: all fifteen answers exactly. Non-trivial = both operands non-zero.",
         "trusted_base": TB_COMMON + ["f64 product LOG2_10*k in highest_bit_lessthan_scaled: scalar condition 2^pre(k) <= 10^k (PreOK)"],
         "assumptions": ASSUME_COMMON + ["operands have fewer than 2^63 digits"],
     },
@@ -174,7 +174,7 @@ PROPS = {
                 "(-0.0 -> 0.0; f32 widened exactly); to_f64 on decimals of 1..400 digits with exponents -400..400, exact halfway points between adjacent floats, values around f64::MAX, MIN_POSITIVE "
                 "and the smallest subnormal, zeros, scales beyond the i32 exponent range (2^31 +-40, 3*10^9, 2^40, near i64::MIN/MAX: tiny values must underflow to zero, huge ones overflow to infinity): judged in exact rational arithmetic from the returned bits (sign, 2^-48 relative, one subnormal step, infinity only near/after MAX). "
                 "Thorough adds all 2^32 f32 patterns against an independent exact formula in-process.",
-        "trusted_base": TB_COMMON + ["the three float primitives used inside to_f64 are MODELLED, not verified: BigUint::to_f64 and str::parse::<f64> as round-to-nearest-even of the exact value, f64::powi as compiler-rt repeated squaring with each product rounded to nearest even (F64.rne, proved round-to-nearest in C14_rne_nearest); the correspondence check compares the resulting bit pattern with the real to_f64 on every generated decimal", "the f64 digit estimate inside to_f64 is Lean Float arithmetic (opaque to the kernel): the tolerance theorem is stated for every digit estimate and its premises are observed per input (tags +keeps25 / +estimate-differs in the evidence)"],
+        "trusted_base": TB_COMMON + ["the three float primitives used inside to_f64 are MODELLED, not verified: BigUint::to_f64 and str::parse::<f64> as round-to-nearest-even of the exact value, f64::powi as compiler-rt repeated squaring with each product rounded to nearest even (F64.rne, proved round-to-nearest in C14_rne_nearest); the correspondence check compares the resulting bit pattern with the real to_f64 on every generated decimal", "the f64 digit estimate inside to_f64 is modelled through the same rounding primitive (kernel-transparent; C14_digit_estimate_keeps25); the driver cross-checks it against Lean hardware floats per input (tag +hardware-estimate-differs)"],
         "assumptions": ASSUME_COMMON,
     },
     "C20": {
